@@ -45,6 +45,29 @@ namespace BitSerializer
 		}
 
 		/// <summary>
+		/// Adds all validation errors of one field at once (all of them are kept even when `MaxValidationErrors` is reached).
+		/// </summary>
+		void AddValidationErrors(std::string path, ValidationErrors errors)
+		{
+			if (errors.empty()) {
+				return;
+			}
+			if (const auto it = mErrorsMap.find(path); it == mErrorsMap.end()) {
+				mErrorsMap.try_emplace(std::move(path), std::move(errors));
+			}
+			else {
+				for (auto& errorMsg : errors) {
+					it->second.push_back(std::move(errorMsg));
+				}
+			}
+
+			if (mSerializationOptions.maxValidationErrors > 0 && static_cast<size_t>(mSerializationOptions.maxValidationErrors) == mErrorsMap.size())
+			{
+				OnFinishSerialization();
+			}
+		}
+
+		/// <summary>
 		/// Stores an exception that cannot be thrown at the point of detection (e.g. from a destructor of a scope),
 		/// it will be re-thrown from `OnFinishSerialization()`. Only the first exception is kept.
 		/// </summary>
